@@ -375,6 +375,15 @@ class Engine(
                 # operands are only Selects if they need to be subqueries.
                 new_lhs, new_lhs_needs_projection = lhs.strip()
                 new_rhs, new_rhs_needs_projection = rhs.strip()
+                if (new_lhs.columns - lhs.columns) & new_rhs.columns or (
+                    new_rhs.columns - rhs.columns
+                ) & new_lhs.columns:
+                    # Stripping exposes columns an operand's projection had
+                    # removed; if the other operand has a column with the same
+                    # tag the join would pick up the wrong one, so keep both
+                    # operands as subqueries.
+                    new_lhs, new_lhs_needs_projection = lhs, False
+                    new_rhs, new_rhs_needs_projection = rhs, False
                 if new_lhs_needs_projection or new_rhs_needs_projection:
                     projection = Projection(frozenset(lhs.columns | rhs.columns))
                 else:
